@@ -215,7 +215,12 @@ cdef class Octree:
 
     @cython.cdivision(True)
     cdef inline double _get_eps(self, double length, double* xmin) noexcept nogil:
-        return (self.machine_eps/length)*fmax(length,
+        if not (length > 0):
+            # a node whose particles all coincide cannot be split further
+            return 1.0
+        # precision relative to the extent of the whole tree, not only to
+        # the corner of this node (which may be the origin)
+        return (self.machine_eps/length)*fmax(fmax(length, self.length),
                 fmax(fmax(fabs(xmin[0]), fabs(xmin[1])), fabs(xmin[2])))
 
     @cython.cdivision(True)
@@ -873,7 +878,7 @@ cdef class CompressedOctree(Octree):
 
         cdef int oct_id
 
-        if (indices.size() < self.leaf_max_particles):
+        if (indices.size() < self.leaf_max_particles) or not (length > 0):
             copy(indices.begin(), indices.end(), self.pids + self._next_pid)
             node.start_index = self._next_pid
             self._next_pid += indices.size()
@@ -981,7 +986,7 @@ cdef class CompressedOctree(Octree):
         cdef double eps
         n =  node.num_particles
 
-        if (n < self.leaf_max_particles):
+        if (n < self.leaf_max_particles) or not (length > 0):
             for i in range(n):
                 self.pids[i] = i
             node.is_leaf = True
@@ -1100,7 +1105,8 @@ cdef class CompressedOctree(Octree):
             new_node.num_particles = count[oct_id]
             count[oct_id] = c
             c = c + new_node.num_particles
-            if (new_node.num_particles < self.leaf_max_particles):
+            if (new_node.num_particles < self.leaf_max_particles) or \
+                    not (length_padded > 0):
                 new_node.is_leaf = True
                 continue
             next_level_nodes.push_back(new_node)
@@ -1258,7 +1264,8 @@ cdef class CompressedOctree(Octree):
                             p_indices[start+l] = new_indices[oct_id][l]
                         start = start + new_indices[oct_id].size()
 
-                        if (num_p < self.leaf_max_particles):
+                        if (num_p < self.leaf_max_particles) or \
+                                not (length_padded > 0):
                             node.children[oct_id].is_leaf = True
                             continue
                         new_nodes[tid].push_back(node.children[oct_id])
